@@ -14,6 +14,7 @@ let ierr_name = function
   | M.IEIdempotency -> "idempotency_conflict" | M.IEMalformed -> "malformed"
 
 let action_of_sx = function
+  | L [A "import_shift"; w; now; dl; dt] -> M.AImportShift (atom w = "1", zarg now, zarg dl, zarg dt)
   | L [A "import"; d; t; now] ->
     let t = int_of_string (atom t) in
     M.AImport (nat_of_int (int_of_string (atom d)), (if t < 0 then None else Some (nat_of_int t)), zarg now)
